@@ -308,6 +308,39 @@ def run_suite(ctx, spec):
         analyse(ctx, spec, hbin, drv, allmm, extra)
 
 
+def lint_state(ctx):
+    """No persistent mutable state besides the unique table (and the two documented RefCells of BDDSet / ParsedFormula):
+    a memo table, a cache keyed by hash or a call counter can make results depend on history in ways no finite run is
+    guaranteed to reach (only after 65536 calls, only on a hash collision).  The tree model has no such state."""
+    import re, glob
+    problems = []
+    # persistent mutable state: the theorem's ADT has exactly one piece of state, the unique table.  Any further
+    # interior-mutable field or global (a memo table, a cache keyed by hash, a call counter) can make results
+    # depend on history in ways no finite run is guaranteed to reach (e.g. only after 65536 calls or on a hash collision).
+    allowed_state = {('bdd.rs', 'nodes'), ('set.rs', 'bdd'), ('parser.rs', 'definitions')}
+    for path in sorted(glob.glob(os.path.join(ctx.repo, 'src', '*.rs'))):
+        base = os.path.basename(path)
+        in_cfg_verif = 0
+        for ln, line in enumerate(open(path), 1):
+            code = line.split('//')[0]
+            if 'cfg(rsbdd_verif)' in code:
+                in_cfg_verif = 40       # the hook module is compiled only for verification
+            elif in_cfg_verif:
+                in_cfg_verif -= 1
+            m = re.match(r'\s*(?:pub(?:\([a-z]+\))?\s+)?(\w+)\s*:\s*(.*(?:RefCell|Cell|Mutex|RwLock|OnceCell|OnceLock|Atomic\w+)\s*<?.*)', code)
+            if m and not in_cfg_verif and '(' not in code.split(':')[0] and 'fn ' not in code:
+                if (base, m.group(1)) not in allowed_state:
+                    problems.append('%s:%d: interior-mutable state `%s` besides the unique table' % (os.path.relpath(path, ctx.repo), ln, m.group(1)))
+            if re.search(r'\bstatic\s+mut\b|thread_local!|lazy_static!', code) and not in_cfg_verif:
+                if not (base == 'parser.rs' and 'lazy_static!' in code):
+                    problems.append('%s:%d: global mutable state' % (os.path.relpath(path, ctx.repo), ln))
+    ctx.notes.append('state lint (no interior-mutable state besides the unique table): %d finding(s)' % len(problems))
+    if problems:
+        ctx.violation({'kind': 'lint', 'key': 'lint:state', 'broken_correspondence':
+                       'state lint: the implementation keeps mutable state that the model does not have (results may depend on history)',
+                       'detail': problems[:20]}, no_input=True)
+
+
 def lint_c13(ctx):
     """C13 (b): every public operation is a client of the unique-table ADT.  Syntactic check on /repo/src:
     the field `nodes` is touched only by size / mk_choice / mk_const / find / new (and the read-only
@@ -330,26 +363,6 @@ def lint_c13(ctx):
                re.search(r'=\s*(BDD|Self)::Choice\(', code):
                 if not (path.endswith('bdd.rs') and fn in allowed_alloc):
                     problems.append('%s:%d: a Choice node is allocated in fn %s' % (os.path.relpath(path, ctx.repo), ln, fn))
-    # persistent mutable state: the theorem's ADT has exactly one piece of state, the unique table.  Any further
-    # interior-mutable field or global (a memo table, a cache keyed by hash, a call counter) can make results
-    # depend on history in ways no finite run is guaranteed to reach (e.g. only after 65536 calls or on a hash collision).
-    allowed_state = {('bdd.rs', 'nodes'), ('set.rs', 'bdd'), ('parser.rs', 'definitions')}
-    for path in sorted(glob.glob(os.path.join(ctx.repo, 'src', '*.rs'))):
-        base = os.path.basename(path)
-        in_cfg_verif = 0
-        for ln, line in enumerate(open(path), 1):
-            code = line.split('//')[0]
-            if 'cfg(rsbdd_verif)' in code:
-                in_cfg_verif = 40       # the hook module is compiled only for verification
-            elif in_cfg_verif:
-                in_cfg_verif -= 1
-            m = re.match(r'\s*(?:pub(?:\([a-z]+\))?\s+)?(\w+)\s*:\s*(.*(?:RefCell|Cell|Mutex|RwLock|OnceCell|OnceLock|Atomic\w+)\s*<?.*)', code)
-            if m and not in_cfg_verif and '(' not in code.split(':')[0] and 'fn ' not in code:
-                if (base, m.group(1)) not in allowed_state:
-                    problems.append('%s:%d: interior-mutable state `%s` besides the unique table' % (os.path.relpath(path, ctx.repo), ln, m.group(1)))
-            if re.search(r'\bstatic\s+mut\b|thread_local!|lazy_static!', code) and not in_cfg_verif:
-                if not (base == 'parser.rs' and 'lazy_static!' in code):
-                    problems.append('%s:%d: global mutable state' % (os.path.relpath(path, ctx.repo), ln))
     ctx.notes.append('C13(b) source lint: %d finding(s)' % len(problems))
     if problems:
         ctx.violation({'kind': 'lint', 'key': 'lint:c13', 'broken_correspondence':
@@ -390,6 +403,8 @@ def run_property(ctx):
         ] + spec.get('assumptions', [])
         if spec.get('lint') == 'c13':
             lint_c13(ctx)
+        if spec.get('state_lint'):
+            lint_state(ctx)
         if spec.get('lint') == 'c14':
             lint_c14(ctx)
         for s in spec['suites']:
